@@ -177,7 +177,8 @@ def plan(ctx):
         for seed in seeds:
             for fd in (False, True):
                 rnd.append((w, l, seed, fd))
-    big = [(10, 9, ctx.seed % 7, False), (9, 10, ctx.seed % 7, True)]           # 90 tiles: index offsets beyond 256
+    big = [(10, 9, ctx.seed % 7, False), (9, 10, ctx.seed % 7, True),           # 90 tiles: index offsets beyond 256
+           (300, 1, ctx.seed % 5, False), (1, 300, ctx.seed % 5, False), (259, 2, ctx.seed % 3, True)]      # more than 256 columns / rows: widths and column numbers beyond the small-integer range
     for b in big:
         shards.append({"kind": "random", "boards": [b], "lo": 0, "triples": TRIPLES[:1]})
     for i in range(0, len(rnd), 4):
@@ -200,7 +201,7 @@ def run(ctx):
     shards, spaces = plan(ctx)
     tot = par.run_shards(work, shards, ctx.jobs)
     if not tot.get("violations") and tot["nontrivial"] < 10:
-        raise par.HarnessError("C08 vacuity guard")
+        raise par.GuardError("C08 vacuity guard")
     cov = {"states": tot["states"], "transitions": tot["transitions"], "traces_validated_against_impl": tot["comparisons"],
            "evaluations": tot["comparisons"], "distinct_nontrivial": tot["nontrivial"], "boards": tot["boards"],
            "max_refinement_rounds": tot["max_rounds"], "rule": RULE, "spaces": spaces,
